@@ -105,6 +105,7 @@ def run_case(case):
 
     def hook(sim):
         holder['obs'] = Observer(sim, deals=False, tasks=False)
+        sim.livelock_steps = 100_000   # busy-waiting for ever (desynchronised parties) is a hang, see vlib/sim.py
 
     try:
         sim, res, ref = progs.run_int_case(case, receivers=case.get('receivers'), sim_hook=hook,
